@@ -26,13 +26,26 @@ def grid_axes(d, has_t):
 
 def anon_axes(p):
     """rename every binder axis to '*' (the PINN means over rows, the SPINN over grid axes)"""
+    from ..alg import fold_means
+
     def f(a):
         if a[0] in ('Mean', 'Sum'):
-            return (a[0], ('*',) * 1, anon_axes(a[2]))
+            return (a[0], ('*',) * 1, g(a[2]))
         if a[0] in ('Abs', 'Inv'):
-            return (a[0], anon_axes(a[1]))
+            return (a[0], g(a[1]))
         return a
-    return p.map_atoms(f)
+
+    def g(q):
+        # atoms are replaced without re-normalising (a Mean atom must stay a Mean atom here)
+        out = Poly()
+        for k, v in q.t.items():
+            mon = Poly.const(v)
+            for a, e in k:
+                b = Poly.atom(f(a))
+                mon = mon * (b ** e if e > 0 else Poly.const(1) / (b ** (-e)))
+            out = out + mon
+        return out
+    return g(fold_means(p))
 
 
 def twin(rev, fwd, lead, trail, what):
@@ -84,6 +97,18 @@ def run(chk):
                     raise Violation("grid axes", str(af), str((d,) + gax))
                 return f"equal; forward axes {af}"
             chk.run("C11.R1", f"{OPS}:_vectorial_laplacian (PINN/SPINN branches)", cfg, go_vl, construct="_vectorial_laplacian twins")
+            # an explicit number of components different from the number of coordinates (fewer / more)
+            for mm in ((d - 1, d + 1) if d >= 2 else (d + 1,)):
+                def go_vl2(mm=mm):
+                    up, us = Net('u', 'PINN', mm, et, d), Net('u', 'SPINN', mm, et, d)
+                    f_ = m.env.get("_vectorial_laplacian")
+                    r, f = f_(tp, xp, up, P, mm), f_(ts, xs, us, P, mm)
+                    af, ar = twin(r, f, (), (), "_vectorial_laplacian")
+                    if tuple(af) != (mm,) + gax:
+                        raise Violation("grid axes", str(af), str((mm,) + gax))
+                    return f"equal; forward axes {af}"
+                chk.run("C11.R1", f"{OPS}:_vectorial_laplacian (PINN/SPINN branches)", dict(cfg, components=mm), go_vl2,
+                        construct="_vectorial_laplacian twins, explicit component count")
 
     # R2 equations
     md = w.module(DYN)
